@@ -84,12 +84,9 @@ JOBS.append(dict(name='c02_batch_rows_int32', wip=False, est_s=300, timeout=900,
                  **BRJ, **BR))
 # C19: the same one-column job with every allocation allowed to fail (cbmc 6 default) + leak check
 BR19 = dict(BR)
-BR19['cbmc_flags'] = []
 BR19['prop'] = 'C19'
-JOBS.append(dict(name='c19_batch_next_int32', wip=True, est_s=600, timeout=600, tier='thorough',
-                 note='UNDECIDED: cbmc does not finish in 600 s (symbolic execution after the column loop with failing allocations). '
-                      'FINDING shown natively (/tmp/colreader/demo_c19): failed calloc of null_bitmap / malloc of def_levels -> '
-                      'carquet_batch_reader_next returns OK with a NULL or all-zero bitmap (null rows lost)', defines=['CQV_TYPE=1', 'CQV_NP_MAX=1', 'CQV_NL_MAX=2'],
-                 bound='1 projected column of 1..2 INT32 file columns, row group open; rows unbounded; any subset of allocations fails',
-                 checks=['--pointer-check', '--memory-leak-check'],
+JOBS.append(dict(name='c19_batch_next_int32', wip=True, est_s=60, timeout=600,
+                 defines=['CQV_TYPE=1', 'CQV_NP_MAX=1', 'CQV_NL_MAX=1', 'CQV_C19=1'],
+                 bound='1 projected OPTIONAL INT32 column, row group open, batch_size <= 8; every malloc/calloc made by '
+                       'batch_reader.c may fail independently (wrapper), all other allocations succeed',
                  **BRJ, **BR19))
